@@ -79,10 +79,13 @@ class _ObjectFamily(object):
         # dictionary with a junk "modified"), nothing must have been added.
         is_latest = (
             self.latest_version is None or
-            _timestamp_sort_key(obj["modified"]) >
+            # (an equal one replaces it below, so it does here)
+            _timestamp_sort_key(obj["modified"]) >=
             _timestamp_sort_key(self.latest_version["modified"])
         )
-        self.all_versions[obj["modified"]] = obj
+        # (keyed by instant: in a dictionary the same version may be spelled
+        # "...:00Z" or "...:00.000Z")
+        self.all_versions[_timestamp_sort_key(obj["modified"])] = obj
         if is_latest:
             self.latest_version = obj
 
